@@ -9,6 +9,10 @@
 (*        "ghost"   the codemod's rule reported for another (absent) file  *)
 (*        "status"  the codemod's rule, but the issue is resolved / closed *)
 (*                  / reviewed                                             *)
+(*        "tail"    the codemod's rule reported for another EXISTING file    *)
+(*                  with the same content whose path is a tail of this     *)
+(*                  file's path or has it as its tail (app.py vs           *)
+(*                  services/app.py): nothing to do in THIS file           *)
 (*        "inner"   (tools that report a line only) the finding names an   *)
 (*                  inner line of a construct that spans several lines     *)
 (***************************************************************************)
@@ -16,7 +20,7 @@ EXTENDS Naturals, FiniteSets, TLC
 
 N == 3
 Sites == 1..N
-Kinds == {"subset", "rule", "ghost", "status", "inner"}
+Kinds == {"subset", "rule", "ghost", "tail", "status", "inner"}
 
 VARIABLES sc, exp, st
 
